@@ -559,6 +559,8 @@ def _classify(c):
     stored = c["fh"]
     if c["upd"] == "no":
         out["update"] = True
+    elif not c["uy"] and c["uX"] is not None:
+        out["update"] = False          # empty batch together with an (empty) X frame: rejected by input validation
     elif c["upd"] == "upd":
         out["update"] = True
     else:
